@@ -1,7 +1,7 @@
 (** SimpProofs.v — soundness of the simplifier model Simp.v (C05): every rewrite preserves width and value.
     Part 1: algebra of the n-ary operators modulo 2^w, permutations (canonize), flattening. *)
 From Coq Require Import ZArith List Bool String Lia Permutation.
-From Mx Require Import ModInt ModIntProofs Expr ExprProofs Simp.
+From Mx Require Import ModInt ModIntProofs Expr ExprProofs Simp SliceLemmas.
 Import ListNotations.
 Open Scope list_scope.
 Open Scope Z_scope.
@@ -108,8 +108,8 @@ Proof.
   apply (G []).
 Qed.
 
-(** * Part 2: well-formed trees (fragment 1: constants, identifiers, memory cells, conditionals, the five associative operators
-    and minus) and the one-step soundness of _expr_simp on them *)
+(** * Part 2: well-formed trees (fragments 1 and 2: constants, identifiers, memory cells, conditionals, the five associative operators,
+    minus, and slices; every width is at most 64) and the one-step soundness of _expr_simp on them *)
 Definition frag_op (op : string) : bool := match opk_of op with OAdd | OMul | OXor | OAnd | OOr | OSub => true | _ => false end.
 Definition same_size (n : Z) (args : list expr) : bool := forallb (fun a => size a =? n) args.
 Definition op_ok (op : string) (args : list expr) : bool :=
@@ -123,9 +123,10 @@ Section IdPred.
 Variable IdQ : string -> Z -> bool -> bool -> bool.
 Fixpoint wf (e : expr) : bool :=
   match e with
-  | EInt sg w v => negb sg && (0 <? w) && (0 <=? v) && (v <? 2 ^ w)
-  | EId n w r t => (0 <? w) && IdQ n w r t
-  | EMem a w s => wf a && (0 <? w) && match s with None => true | Some u => wf u end
+  | EInt sg w v => negb sg && ((0 <? w) && (w <=? 64)) && (0 <=? v) && (v <? 2 ^ w)
+  | EId n w r t => ((0 <? w) && (w <=? 64)) && IdQ n w r t
+  | EMem a w s => wf a && ((0 <? w) && (w <=? 64)) && match s with None => true | Some u => wf u end
+  | ESlice e1 lo hi => wf e1 && (0 <=? lo) && (lo <? hi) && (hi <=? size e1)
   | EOp op args => forallb wf args && op_ok op args
   | ECond c a b => wf c && wf a && wf b && (size a =? size b)
   | _ => false
@@ -166,9 +167,9 @@ Section Sound.
   Lemma wf_range : forall e, wf e = true -> 0 < size e /\ 0 <= ev e < 2 ^ size e.
   Proof.
     induction e using expr_ind'; simpl; intros W; try discriminate.
-    - repeat (apply andb_true_iff in W as [W ?]). apply Z.ltb_lt in H1. split; [assumption | apply wrap_rng; lia].
-    - apply andb_true_iff in W as [W _]. apply Z.ltb_lt in W. split; [assumption | apply wrap_rng; lia].
-    - apply andb_true_iff in W as [W _]. apply andb_true_iff in W as [_ W]. apply Z.ltb_lt in W. split; [assumption | unfold mem_read; apply wrap_rng; lia].
+    - apply andb_true_iff in W as [W V2]. apply andb_true_iff in W as [W V1]. apply andb_true_iff in W as [Sg Ww]. apply andb_true_iff in Ww as [W1 W2]. apply Z.ltb_lt in W1. split; [assumption | apply wrap_rng; lia].
+    - apply andb_true_iff in W as [W _]. apply andb_true_iff in W as [W _]. apply Z.ltb_lt in W. split; [assumption | apply wrap_rng; lia].
+    - apply andb_true_iff in W as [W _]. apply andb_true_iff in W as [_ W]. apply andb_true_iff in W as [W _]. apply Z.ltb_lt in W. split; [assumption | unfold mem_read; apply wrap_rng; lia].
     - apply andb_true_iff in W as [Wa Ok_]. destruct (op_ok_inv _ _ Ok_) as (a & r & -> & F & S).
       inversion H as [|? ? Ha Hr]; subst. simpl in Wa. apply andb_true_iff in Wa as [Wa _]. destruct (Ha Wa) as [Pa _].
       assert (Sz : (if size a =? 0 then match r with [] => size a | b :: _ => size b end else size a) = size a)
@@ -178,6 +179,21 @@ Section Sound.
     - repeat (apply andb_true_iff in W as [W ?]). apply Z.eqb_eq in H. destruct (ev e1 =? 0).
       + rewrite H. apply IHe3. assumption.
       + apply IHe2. assumption.
+    - apply andb_true_iff in W as [W Hh]. apply andb_true_iff in W as [W Hl]. apply andb_true_iff in W as [W H0]. apply Z.ltb_lt in Hl. split; [lia | apply wrap_rng; lia].
+  Qed.
+
+  (** every width is at most 64 *)
+  Lemma wf_size_le : forall e, wf e = true -> size e <= 64.
+  Proof.
+    induction e using expr_ind'; simpl; intros W; try discriminate.
+    - apply andb_true_iff in W as [W V2]. apply andb_true_iff in W as [W V1]. apply andb_true_iff in W as [Sg Ww]. apply andb_true_iff in Ww as [W1 W2]. apply Z.leb_le in W2. exact W2.
+    - apply andb_true_iff in W as [W _]. apply andb_true_iff in W as [_ W]. apply Z.leb_le in W. exact W.
+    - apply andb_true_iff in W as [W _]. apply andb_true_iff in W as [_ W]. apply andb_true_iff in W as [_ W]. apply Z.leb_le in W. exact W.
+    - apply andb_true_iff in W as [Wa Ok_]. destruct (op_ok_inv _ _ Ok_) as (a & r & -> & F & S).
+      inversion H as [|? ? Ha Hr]; subst. simpl in Wa. apply andb_true_iff in Wa as [Wa _]. specialize (Ha Wa).
+      destruct (wf_range a Wa) as [Pa _]. destruct (size a =? 0) eqn:E; [apply Z.eqb_eq in E; lia | exact Ha].
+    - repeat (apply andb_true_iff in W as [W ?]). apply IHe2. assumption.
+    - apply andb_true_iff in W as [W Hh]. apply andb_true_iff in W as [W Hl]. apply andb_true_iff in W as [W H0]. apply Z.leb_le in Hh. specialize (IHe W). lia.
   Qed.
 
   (** ** evaluation of a well-formed n-ary node *)
@@ -248,16 +264,16 @@ Section Sound.
   Qed.
 
   (** ** constants *)
-  Lemma wf_int n v : 0 < n -> wf (EInt false n (wrap n v)) = true /\ size (EInt false n (wrap n v)) = n /\ ev (EInt false n (wrap n v)) = wrap n v.
+  Lemma wf_int n v : 0 < n <= 64 -> wf (EInt false n (wrap n v)) = true /\ size (EInt false n (wrap n v)) = n /\ ev (EInt false n (wrap n v)) = wrap n v.
   Proof.
     intros H. pose proof (wrap_rng n v ltac:(lia)) as R. simpl. repeat split.
-    - apply andb_true_iff. split; [apply andb_true_iff; split; [apply Z.ltb_lt; lia | apply Z.leb_le; lia] | apply Z.ltb_lt; lia].
+    - apply andb_true_iff. split; [apply andb_true_iff; split; [apply andb_true_iff; split; [apply Z.ltb_lt; lia | apply Z.leb_le; lia] | apply Z.leb_le; lia] | apply Z.ltb_lt; lia].
     - apply wrap_small. assumption.
   Qed.
-  Lemma wf_int_inv sg w v : wf (EInt sg w v) = true -> sg = false /\ 0 < w /\ 0 <= v < 2 ^ w /\ ev (EInt sg w v) = v.
+  Lemma wf_int_inv sg w v : wf (EInt sg w v) = true -> sg = false /\ 0 < w <= 64 /\ 0 <= v < 2 ^ w /\ ev (EInt sg w v) = v.
   Proof.
-    simpl. intros H. apply andb_true_iff in H as [H Hv2]. apply andb_true_iff in H as [H Hv1]. apply andb_true_iff in H as [Hs Hw].
-    destruct sg; [discriminate|]. apply Z.ltb_lt in Hw, Hv2. apply Z.leb_le in Hv1. repeat split; try lia. apply wrap_small. lia.
+    simpl. intros H. apply andb_true_iff in H as [H Hv2]. apply andb_true_iff in H as [H Hv1]. apply andb_true_iff in H as [Hs Hw]. apply andb_true_iff in Hw as [Hw1 Hw2].
+    destruct sg; [discriminate|]. apply Z.ltb_lt in Hw1, Hv2. apply Z.leb_le in Hv1, Hw2. repeat split; try lia. apply wrap_small. lia.
   Qed.
   Lemma mk_int_ok n v e : mk_int n v = Ok e -> e = EInt false n (wrap n v).
   Proof. unfold mk_int. destruct (std_width n); intros H; inversion H; reflexivity. Qed.
@@ -288,7 +304,7 @@ Section Sound.
       simpl in S2. subst w2. simpl size in *.
       destruct (fold2 op false w1 v1 false w1 v2) as [o| |] eqn:F; try discriminate. cbn [bind] in H.
       apply (fold2_assoc op k w1 v1 v2 o K Hn) in F. subst o.
-      destruct (wf_int w1 (af k v1 v2) Hn) as (Wo & So & Eo).
+      destruct (wf_int w1 (af k v1 v2) P1) as (Wo & So & Eo).
       destruct (IH _ _ H) as (A & B & C & D).
       + constructor; assumption.
       + constructor; assumption.
@@ -337,7 +353,7 @@ Section Sound.
         * rewrite Z.lor_assoc, Z.lor_diag. apply cong_refl.
       + (* DZeroDel *)
         destruct (mk_int (size ai) 0) as [z| |] eqn:M; try discriminate. cbn [bind] in H. apply mk_int_ok in M. subst z.
-        destruct (wf_int (size ai) 0 Hn) as (Wz & Sz & Ez).
+        destruct (wf_int (size ai) 0 (conj Hn (wf_size_le ai Wa))) as (Wz & Sz & Ez).
         destruct (IH _ _ H Wz Sz Wr' Sr') as (A & B & C & D & E). repeat split; auto.
         eapply cong_trans; [exact E|]. rewrite Ez.
         replace (wrap (size ai) 0) with 0 by (unfold wrap; rewrite Z.mod_0_l; [reflexivity | apply Z.pow_nonzero; lia]).
@@ -666,9 +682,49 @@ Section Sound.
         rewrite Q. reflexivity.
   Qed.
 
+  (** ** slices *)
+  Lemma wf_slice_inv a lo hi : wf (ESlice a lo hi) = true -> wf a = true /\ 0 <= lo /\ lo < hi /\ hi <= size a.
+  Proof.
+    simpl. intros W. apply andb_true_iff in W as [W Hh]. apply andb_true_iff in W as [W Hl]. apply andb_true_iff in W as [W H0].
+    apply Z.leb_le in Hh, H0. apply Z.ltb_lt in Hl. auto.
+  Qed.
+  Lemma ev_slice a lo hi : ev (ESlice a lo hi) = wrap (hi - lo) (Z.shiftr (ev a) lo).
+  Proof. reflexivity. Qed.
+
+  Theorem simp_slice_good a lo hi e' : wf (ESlice a lo hi) = true -> simp_slice (ESlice a lo hi) a lo hi = Ok e' -> good (ESlice a lo hi) e'.
+  Proof.
+    intros W H. destruct (wf_slice_inv _ _ _ W) as (Wa & L0 & Llh & Lhs). destruct (wf_range a Wa) as [Pa Ra]. pose proof (wf_size_le a Wa) as Sle.
+    unfold simp_slice in H. destruct ((lo =? 0) && (hi =? size a)) eqn:Full.
+    { inversion H; subst e'. apply andb_true_iff in Full as [F1 F2]. apply Z.eqb_eq in F1, F2. subst lo hi.
+      split; [exact Wa|]. split; [simpl; lia|]. rewrite ev_slice. symmetry. apply slice_full. exact Ra. }
+    destruct a as [sg w v| |addr w sgm| | |a2 lo2 hi2| |]; try (simpl in Wa; discriminate); try (inversion H; subst e'; apply good_refl; exact W).
+    - (* constant *)
+      destruct (std_width (hi - lo)) eqn:Sw; [|inversion H; subst e'; apply good_refl; exact W]. inversion H; subst e'. clear H.
+      destruct (wf_int_inv _ _ _ Wa) as (-> & Pw & Rv & Ev). simpl in Lhs.
+      assert (Bt : 0 < hi - lo <= 64) by lia.
+      rewrite (slice_int v lo (hi - lo)) by lia.
+      destruct (wf_int (hi - lo) (Z.shiftr v lo) Bt) as (A & B & C).
+      split; [exact A|]. split; [exact B|]. rewrite C, ev_slice, Ev. reflexivity.
+    - (* memory cell: the low bytes *)
+      destruct ((lo =? 0) && (w >? hi) && (hi mod 8 =? 0)) eqn:C; [|inversion H; subst e'; apply good_refl; exact W]. inversion H; subst e'. clear H.
+      apply andb_true_iff in C as [C C3]. apply andb_true_iff in C as [C1 C2]. apply Z.eqb_eq in C1, C3. subst lo. apply Z.gtb_lt in C2.
+      pose proof Wa as Wa'. simpl in Wa'. apply andb_true_iff in Wa' as [Wa' _]. apply andb_true_iff in Wa' as [Wad Ww]. apply andb_true_iff in Ww as [Ww1 Ww2]. apply Z.leb_le in Ww2.
+      split; [|split].
+      + simpl. rewrite Wad. cbn [andb]. rewrite andb_true_r. apply andb_true_iff. split; [apply Z.ltb_lt; lia | apply Z.leb_le; lia].
+      + simpl. lia.
+      + rewrite ev_slice. simpl. symmetry. apply mem_read_narrow; lia.
+    - (* slice of a slice *)
+      destruct (hi - lo >? hi2 - lo2) eqn:G; [discriminate|]. inversion H; subst e'. clear H.
+      destruct (wf_slice_inv _ _ _ Wa) as (Wa2 & M0 & Mlh & Mhs). simpl in Lhs.
+      split; [|split].
+      + simpl. rewrite Wa2. cbn [andb]. apply andb_true_iff. split; [apply andb_true_iff; split; [apply Z.leb_le; lia | apply Z.ltb_lt; lia] | apply Z.leb_le; lia].
+      + simpl. lia.
+      + rewrite !ev_slice. symmetry. apply slice_slice; lia.
+  Qed.
+
   Theorem simp1_good e e' : wf e = true -> simp1 e = Ok e' -> good e e'.
   Proof.
-    intros W H. destruct e as [| | |op args|c a b| | |]; try discriminate; try (inversion H; subst; apply good_refl; exact W).
+    intros W H. destruct e as [| | |op args|c a b|a lo hi| |]; try discriminate; try (inversion H; subst; apply good_refl; exact W).
     - simpl in H. pose proof W as W'. simpl in W'. apply andb_true_iff in W' as [_ O].
       destruct (op_ok_inv _ _ O) as (a & r & _ & F & _). unfold frag_op in F.
       destruct (opk_of op) eqn:Ek; try discriminate.
@@ -679,6 +735,7 @@ Section Sound.
       + apply (simp_op_assoc op AOr args e'); [unfold aop_of; rewrite Ek; reflexivity | exact W | exact H].
       + apply osub_is_minus in Ek. subst op. apply simp_op_sub; assumption.
     - simpl in H. inversion H; subst. apply simp_cond_good. exact W.
+    - simpl in H. apply simp_slice_good; assumption.
   Qed.
   (** ** the traversal and the fixpoint loop *)
   Lemma mapM_good (f : expr -> res expr) l l' :
@@ -768,7 +825,19 @@ Section Sound.
         destruct (expr_eqb c' e1 && expr_eqb a' e2 && expr_eqb b' e3).
         + apply cb_good; assumption.
         + eapply good_trans; [exact G|]. apply cb_good; [apply G | exact HV].
+      - (* ESlice *)
+        destruct (wf_slice_inv _ _ _ W) as (Wa & L0 & Llh & Lhs). simpl in HV.
+        destruct (visitM cb e) as [a'| |] eqn:Ea; try discriminate. cbn [bind] in HV.
+        destruct (IHe a' Wa ltac:(first [reflexivity | exact Ea])) as (Wa' & Sa' & Ea').
+        assert (G : good (ESlice e lo hi) (ESlice a' lo hi)).
+        { split; [|split; [reflexivity|]].
+          - simpl. rewrite Wa', Sa'. cbn [andb]. apply andb_true_iff. split; [apply andb_true_iff; split; [apply Z.leb_le; lia | apply Z.ltb_lt; lia] | apply Z.leb_le; lia].
+          - simpl. rewrite Ea'. reflexivity. }
+        destruct (expr_eqb a' e).
+        + apply cb_good; assumption.
+        + eapply good_trans; [exact G|]. apply cb_good; [apply G | exact HV].
     Qed.
+
   End Frame.
 
   Lemma loop_good (rec_simp : expr -> res expr) : (forall x x', wf x = true -> rec_simp x = Ok x' -> good x x') ->
